@@ -153,7 +153,18 @@ pub enum Surgery {
     /// `lookups` lookup indices; one harmless SingleSubst / SinglePos lookup on `glyph`. Offsets
     /// may legitimately repeat, so a table of at most ~200 KB describes up to
     /// scripts x langsys x features (resp. frecs x lookups) entries once every record owns its copy.
-    InstallAliasedLists { table: String, glyph: u16, scripts: u16, langsys: u16, features: u16, frecs: u16, lookups: u16 },
+    InstallAliasedLists {
+        table: String,
+        glyph: u16,
+        scripts: u16,
+        langsys: u16,
+        features: u16,
+        frecs: u16,
+        lookups: u16,
+        /// whether the ScriptTable also names the shared LangSys as its default
+        #[serde(default)]
+        default_langsys: bool,
+    },
     /// CFF2 font without subroutines (every CFF2 font of the corpus): move the programs of
     /// `glyphs` into a new local subroutine INDEX (appended to the table together with a copy of
     /// the Private DICT that names it and a new CharStrings INDEX; the Font DICT and Top DICT
